@@ -38,13 +38,20 @@ def _points(fn):
     """enumerate mutation points as (operator, description, apply(node_copy_root) ) using positional paths"""
     pts = []
     nodes = list(ast.walk(fn))
+    # subscripts that are type annotations (Optional[int], Dict[str, Any]) are not mutation points
+    annot = set()
+    for n in nodes:
+        for a in ([n.annotation] if isinstance(n, (ast.arg, ast.AnnAssign)) and getattr(n, 'annotation', None) is not None else []) + ([n.returns] if isinstance(n, ast.FunctionDef) and n.returns is not None else []):
+            annot |= {id(x) for x in ast.walk(a)}
     for i, n in enumerate(nodes):
+        if id(n) in annot:
+            continue
         if isinstance(n, ast.AugAssign) and isinstance(n.op, (ast.Add, ast.Sub)):
             pts.append(('sign', i, None))
         if isinstance(n, ast.Subscript):
             elts = n.slice.elts if isinstance(n.slice, ast.Tuple) else [n.slice]
             for k, e in enumerate(elts):
-                if isinstance(e, ast.Slice):
+                if isinstance(e, ast.Slice) or (isinstance(e, ast.Constant) and not isinstance(e.value, int)):
                     continue
                 pts.append(('index', i, (k, +1)))
                 pts.append(('index', i, (k, -1)))
